@@ -130,7 +130,7 @@ def exampleForest : Forest :=
     next := 11 }
 
 /-- Three adjacent whitespace-only text nodes (built while consolidation was off, consolidation
-    on again): the boundary of C18_frame. -/
+    on again): the case repaired by /repo 1e1d5fd (the neighbours of the middle node used to be merged). -/
 def adjacentWitness : Forest :=
   { roots := [.node 0 (.element 2) [.node 1 (.text [' ']) [], .node 2 (.text ['\n']) [], .node 3 (.text ['\t']) []]],
     next := 4, everOff := true }
